@@ -7,7 +7,8 @@ Definition dir := nat.
 (* an entry as the loop in process_dir sees it: identity, the size argmax charges for the path
    handed to the command (8 + length + 1), whether that path is within the single-argument bound
    (32 pages - 1), its parent directory, and whether the expression reaches the action on it *)
-Record entry := { eid : nat; ecost : N; esingle : bool; eparent : option dir; reached : bool }.
+Record entry := { eid : nat; ecost : N; esingle : bool; eparent : option dir; reached : bool;
+                  eown : bool   (* the entry is the directory -execdir runs it from: "/" *) }.
 
 Record st := {
   current_dir : option dir;               (* process_dir's current_dir *)
@@ -55,16 +56,18 @@ Definition finished_dir (d : dir) (s : st) : st :=
 Definition finished (s : st) : st :=
   if execdir then s else match cmd s with Some (b, _) => run_batch None b s | None => s end.
 
-(* one iteration of process_dir's loop *)
+(* one iteration of process_dir's loop; an entry that is its own directory ("/": run from itself, but not one of its own
+   entries) is kept apart from the entries of that directory, whichever comes first (-depth: "/" comes last) *)
+Definition flush_dir (s : st) : st := match current_dir s with Some d => finished_dir d s | None => s end.
+Definition set_dir (d : option dir) (s : st) : st := {| current_dir := d; cmd := cmd s; runs := runs s; failed := failed s |}.
 Definition step (s : st) (e : entry) : st :=
-  let s1 := if opt_eqb (eparent e) (current_dir s) then s
-            else let s' := match current_dir s with Some d => finished_dir d s | None => s end in
-                 {| current_dir := eparent e; cmd := cmd s'; runs := runs s'; failed := failed s' |} in
-  if reached e then matches e s1 else s1.
+  let s1 := if opt_eqb (eparent e) (current_dir s) && negb (eown e) then s
+            else set_dir (eparent e) (flush_dir s) in
+  let s2 := if reached e then matches e s1 else s1 in
+  if eown e then set_dir None (flush_dir s2) else s2.
 
 (* after the loop (also after -quit): finished_dir(current_dir), then finished() *)
-Definition finish (s : st) : st :=
-  finished (match current_dir s with Some d => finished_dir d s | None => s end).
+Definition finish (s : st) : st := finished (flush_dir s).
 
 Definition st0 : st := {| current_dir := None; cmd := None; runs := []; failed := false |}.
 Definition run (es : list entry) : st := finish (fold_left step es st0).
